@@ -206,19 +206,20 @@ func modeLog(tier string, args []string) {
 			ow, ty int
 			ids    []int
 		}
-		nflt := 1 + rng.Intn(6)
+		nflt := 2 + rng.Intn(7)
 		fq := make([][2]int, nflt)
 		for i := range fq {
 			fq[i] = [2]int{rng.Intn(nprod+1) - 1, rng.Intn(4)}
 		}
 		results := make([]fres, nflt)
-		wg.Add(1)
-		go func() {
-			defer wg.Done()
-			for i, q := range fq {
+		// every Filter call from its own goroutine: the calls overlap with the producers and with each other
+		for i, q := range fq {
+			wg.Add(1)
+			go func(i int, q [2]int) {
+				defer wg.Done()
 				results[i] = fres{q[0], q[1], fltIds(l.Filter(ownerArg(q[0]), q[1]))}
-			}
-		}()
+			}(i, q)
+		}
 		wg.Wait()
 		// sentinel entry by an extra producer: FIFO channel, so once it is visible
 		// everything sent before it has been processed
